@@ -8,16 +8,16 @@ from vlib import core
 from vlib.runner import Spec
 
 PROTO_SCENARIOS = [
-    ("payload", ["future_poll", "future_await", "future_compete", "shared"]),
+    ("payload", ["future_poll", "future_has_value", "future_await", "future_compete", "shared"]),
     ("awaiter node via future", ["future_await", "future_compete"]),
     ("awaiter node via signal", ["signal"]),
     ("mutex", ["mutex", "mutex_window"]),
-    ("reusable_storage_mtsafe", ["storage"]),
+    ("reusable_storage_mtsafe", ["storage", "storage_sizes"]),
     ("generator", ["generator"]),
 ]
 CLASS_SCENARIOS = {"queue": ["queue", "generator"], "limited_queue": ["queue"], "thread_pool": ["pool", "pool_double_stop"],
-                   "scheduler": ["scheduler", "scheduler_multi_start"], "publisher::queue": ["publisher"]}
-ALL_SCENARIOS = ["future_poll", "future_await", "future_compete", "mutex", "mutex_window", "queue", "pool", "pool_double_stop", "scheduler", "scheduler_multi_start", "publisher",
+                   "scheduler": ["scheduler", "scheduler_multi_start", "scheduler_pool_start"], "publisher::queue": ["publisher", "publisher_items"]}
+ALL_SCENARIOS = ["future_poll", "future_has_value", "scheduler_pool_start", "storage_sizes", "publisher_items", "future_await", "future_compete", "mutex", "mutex_window", "queue", "pool", "pool_double_stop", "scheduler", "scheduler_multi_start", "publisher",
                  "storage", "generator", "signal", "shared"]
 
 
@@ -119,7 +119,8 @@ class C03(Spec):
                 "c03_walk_reads_next_before_resume", "c03_unlock_unlinks_before_resume", "c03_final_resolve_before_destroy",
                 "c03_build_queue_acquires_before_queue", "c03_lock_programs_disciplined", "c03_lock_programs_cover",
                 "c03_lock_programs_classes", "c03_set_constructs_before_state",
-                "c03_awaiter_no_touch_after_publish", "c03_sites_accounted", "c03_rmw_shapes", "c03_tracer_ref_before_publish"]
+                "c03_awaiter_no_touch_after_publish", "c03_sites_accounted", "c03_rmw_shapes", "c03_tracer_ref_before_publish", "c03_mtsafe_dealloc_no_write_after_release",
+                "c03_mtsafe_alloc_writes_after_acquire", "c03_start_in_sets_pool_before_handover", "c03_hint_loads_gate_nothing", "c03_guarded_data_does_not_escape"]
 
     def prebuild(self):
         tsan_binary()
@@ -213,6 +214,15 @@ class C03(Spec):
             found += self._baton_search("c01")
         if broken & {"c03_walk_reads_next_before_resume", "c03_final_resolve_before_destroy", "c03_awaiter_no_touch_after_publish"}:
             found += self._baton_search("c02")
+        if "c03_guarded_data_does_not_escape" in broken:
+            for cls, fn, what in ctx.get("extract", {}).get("guarded_escapes", []):
+                scenarios += CLASS_SCENARIOS.get(cls, [])
+        if "c03_hint_loads_gate_nothing" in broken:
+            scenarios += ["future_has_value", "future_poll", "future_await", "shared"]
+        if "c03_start_in_sets_pool_before_handover" in broken:
+            scenarios += ["scheduler_pool_start", "scheduler"]
+        if broken & {"c03_mtsafe_dealloc_no_write_after_release", "c03_mtsafe_alloc_writes_after_acquire"}:
+            scenarios += ["storage_sizes", "storage"]
         if "c03_build_queue_acquires_before_queue" in broken:
             scenarios += ["mutex_window", "mutex"]
         if "c03_tracer_ref_before_publish" in broken:
